@@ -145,6 +145,10 @@ def check_direct(run, case):
     tgt = model.target(uid)
     small = sum(len(v) for v in model.dump()[uid].values()) <= 400
     for i, m in enumerate(hist):
+        if case.get('reset_at') == i:
+            slave.reset()               # the application resets its datastore in the middle of the history
+            tgt.reset()
+            run.count('context_resets')
         want = S.encode(tgt.execute(m))
         run.count('responses_compared')
         try:
@@ -263,9 +267,17 @@ def gen_layout(r, i):
         layout['units'][1] = {'c': {'type': 'seq', 'start': start, 'values': [False] * n}, 'd': {'type': 'seq', 'start': start, 'values': [False] * n},
                               'i': {'type': 'seq', 'start': start, 'values': [0] * n}, 'h': {'type': 'seq', 'start': start, 'values': [0] * n}, 'alias': {}}
         layout['share_init_lists'] = True
+    if i % 6 == 5:
+        # initial cells of another type than the table's usual one (bool vs int are interchangeable in Python): register tables
+        # initialised from [False] * n, bit tables from [0] * n - what is written afterwards must still be stored as written
+        start, n = r.choice([0, 1, 3]), r.choice([8, 16, 40])
+        layout['units'][1] = {'c': {'type': 'seq', 'start': start, 'values': [0] * n}, 'd': {'type': 'seq', 'start': start, 'values': [1] * n},
+                              'i': {'type': 'seq', 'start': start, 'values': [False] * n}, 'h': {'type': 'seq', 'start': start, 'values': [False] * n}, 'alias': {}}
     if i % 6 == 4:
         layout['via_defaults'] = True          # addressing mode configured through the process-wide Defaults.ZeroMode
         layout['zero_mode'] = bool(i % 4 != 2)
+    if i % 12 == 2:
+        layout['defaults_opposite'] = True     # Defaults.ZeroMode says the opposite of the explicit zero_mode= keyword
     return layout
 
 
@@ -282,6 +294,8 @@ def run(run):
         hist = gen_history(r, layout, r.choice([1, 5, 20, 40, 60]), uniq)
         front, framing = PATHS[i % len(PATHS)] if i % 3 else PATHS[0]
         case = {'layout': layout, 'history': hist, 'front': front, 'framing': framing}
+        if front == 'direct' and len(hist) >= 5 and i % 4 == 1:
+            case['reset_at'] = len(hist) // 2
         ok = check_direct(run, case) if front == 'direct' else check_front(run, case, front, framing)
         run.count('path:%s/%s' % (front, framing))
         nontriv = any(m['fc'] in (5, 6, 15, 16, 22, 23) for m in hist) and any(m['fc'] in (1, 2, 3, 4, 23) for m in hist)
